@@ -66,6 +66,22 @@ Qed.
 Print Assumptions C12_source.
 Definition C12_source_skeleton := lsml_skeleton_ok.
 
+(* the descent loop of _fit as TRANSLATED on this run (what is kept from one candidate step to the next: `if cur_s < s_best`, and
+   from one iteration to the next: `if M_best is None: break`, `M = M_best`), with the candidates (step, eigen-decomposition,
+   floor, loss) as oracle values: it is the model's loop, so for ANY candidates the loss it ends with is never above the one it
+   started from - the first clause of C12_partial, for the code as it reads now *)
+Definition C12_descent_source_stmt : Prop :=
+  (forall (iters : list (list (R * Rm))) s M, @lsml_descent ROps s M iters = descendR s M iters) /\
+  (forall (iters : list (list (R * Rm))) s M, fst (@lsml_descent ROps s M iters) <= s).
+
+Theorem C12_descent_source : C12_descent_source_stmt.
+Proof.
+  split; intros iters s M.
+  - apply src_descent_is_descend.
+  - rewrite src_descent_is_descend. apply lsml_accept_descends.
+Qed.
+Print Assumptions C12_descent_source.
+
 (* text-level tie: the functions this property's hand-written model and harness were written from are unchanged
    (digests regenerated from /repo on every run; Proofs/PinsC12.v) *)
 Definition C12_source_pins := pins_C12_ok.
